@@ -1,9 +1,9 @@
-from . import run_harness
+from . import run_harness, merge
 
 
 def run(tier, seed):
-    out = run_harness('h_verify.py', 'C06', tier, seed)
-    out['explanation'] = ('Bounded stand-in (not a proof): run-time contract on the real assert_directory_verifies / gemato verify '
-                          'over generated trees that verify by construction plus known discrepancies. ')
+    out = merge(run_harness('h_verify.py', 'C06', tier, seed), run_harness('h_update.py', 'C06', tier, seed))
+    out['explanation'] = ('Bounded stand-in (not a proof): OSErrors injected one placement at a time (os.open, scandir, read, fstat) into '
+                          'verification and update runs of the real code; success / "absent" / partial writes are violations. ')
     out['required'] = True
     return out
